@@ -47,6 +47,23 @@ class SetCash(core.Algo):
         return True
 
 
+class ReadReports(core.Algo):
+    """A user algo that looks at the public report properties of its strategy in
+    the middle of a run (reads are transparent: C08; the final reports: C18)."""
+
+    def __init__(self, what=("positions", "outlays", "values", "universe", "prices", "cash")):
+        super().__init__()
+        self.what = tuple(what)
+
+    def __call__(self, target):
+        for w in self.what:
+            try:
+                getattr(target, w)
+            except Exception:  # noqa: BLE001 - e.g. bid/offer accounting not turned on
+                pass
+        return True
+
+
 class Spy(core.Algo):
     """Records (date, strategy name) of every call; returns a fixed value."""
 
@@ -91,6 +108,8 @@ def make_algo(name, params, prog, spylog=None):
 
     if name == "SetCash":
         return SetCash(p["c"], p.get("start", 0))
+    if name == "ReadReports":
+        return ReadReports(**p)
     if name == "Spy":
         return Spy(spylog if spylog is not None else [], p.get("ret", True), p.get("tag", "spy"))
     if name in ("RunDaily", "RunWeekly", "RunMonthly", "RunQuarterly", "RunYearly"):
